@@ -30,8 +30,8 @@ const (
 func init() {
 	register(Property{ID: "C23", Level: "other", Run: runC23,
 		Technique: "static analysis: field-coverage of encoder composite literals on SSA (E3), sibling agreement of the decoder/encoder type switches (E7), path conditions on writeUnitInner (E1), who-may-write tables (E2)",
-		Text: "Decides: (1) every RTP encoder struct that newRTPEncoder builds and whose type has a PayloadMaxSize / SSRC / InitialSequenceNumber field sets it from the corresponding parameter, and the encoder returned is the configured object; (2) both newRTPEncoder call sites pass the stream format's outFormat and rtpMaxPayloadSize and store the result in that format's rtpEncoder, the oversize site passing the offending packet's SSRC and sequence number; rtpEncoder/rtpTimeOffset are written nowhere else; (3) in writeUnitInner the oversize encoder is created only under len(pkt.Payload) > rtpMaxPayloadSize, every incoming packet is compared before packets pass through, and once an encoder exists incoming packets never reach the readers; (4) every packet of a re-encoded unit gets Timestamp += rtpTimeOffset + uint32(PTS), the oversize offset is pkt.Timestamp - uint32(PTS), and the offset changes only where an encoder is created; (4b) the encode wrappers returned by newRTPEncoder leave the library's timestamps alone, except that a wrapper splitting one unit into several timed packets (Opus) adds to packet k an offset that is loop-carried state only, is 0 for the first packet of the unit and grows per iteration by exactly opus.PacketDuration*(element just encoded); (5) for each of the 16 codecs the payload type produced by the format's RTP decoder is the payload type asserted by its encoder; (6) non-RTP / always-available / force-remux sub streams leave initialize with an encoder; (7) rtpMaxPayloadSize is plumbed from core to every streamFormat. Not decided: packetization inside gortsplib encoders (size, sequence numbers, losslessness).",
-		Note: "trusted: gortsplib rtp* encoders honour PayloadMaxSize/SSRC/InitialSequenceNumber and decoders invert them; pion/rtp"})
+		Text:      "Decides: (1) every RTP encoder struct that newRTPEncoder builds and whose type has a PayloadMaxSize / SSRC / InitialSequenceNumber field sets it from the corresponding parameter, and the encoder returned is the configured object; (2) both newRTPEncoder call sites pass the stream format's outFormat and rtpMaxPayloadSize and store the result in that format's rtpEncoder, the oversize site passing the offending packet's SSRC and sequence number; rtpEncoder/rtpTimeOffset are written nowhere else; (3) in writeUnitInner the oversize encoder is created only under len(pkt.Payload) > rtpMaxPayloadSize, every incoming packet is compared before packets pass through, and once an encoder exists incoming packets never reach the readers; (4) every packet of a re-encoded unit gets Timestamp += rtpTimeOffset + uint32(PTS), the oversize offset is pkt.Timestamp - uint32(PTS), and the offset changes only where an encoder is created; (4b) the encode wrappers returned by newRTPEncoder leave the library's timestamps alone, except that a wrapper splitting one unit into several timed packets (Opus) adds to packet k an offset that is loop-carried state only, is 0 for the first packet of the unit and grows per iteration by exactly opus.PacketDuration*(element just encoded); (5) for each of the 16 codecs the payload type produced by the format's RTP decoder is the payload type asserted by its encoder; (6) non-RTP / always-available / force-remux sub streams leave initialize with an encoder; (7) rtpMaxPayloadSize is plumbed from core to every streamFormat. Not decided: packetization inside gortsplib encoders (size, sequence numbers, losslessness).",
+		Note:      "trusted: gortsplib rtp* encoders honour PayloadMaxSize/SSRC/InitialSequenceNumber and decoders invert them; pion/rtp"})
 	addMutants(
 		Mutant{"C23", "h264-default-max-size", "internal/stream/rtp_encoder.go",
 			"		wrapped := &rtph264.Encoder{\n			PayloadMaxSize:        rtpMaxPayloadSize,\n", "		wrapped := &rtph264.Encoder{\n", "C23.encoder.max_size"},
